@@ -336,6 +336,62 @@ def completion(rep, u):
     return n
 
 
+def self_once(rep, u):
+    """one-by-one chains: the calling thread's callback is served by exactly one of the two sites that can serve it (the direct
+    call in tpt_msg_cbsend, the end-of-chain send in tpt_msg_one_by_one_proxy_cb) unless SELF_SKIP is set, then by none.
+    Finite-domain evaluation over the SELF_SKIP / SELF_DIRECT flag bits."""
+    from rules import r_stride
+    fa, fb = tp.need(u, "tpt_msg_cbsend"), tp.need(u, "tpt_msg_one_by_one_proxy_cb")
+    rep.functions.update([fa.name, fb.name])
+    vals = tp.probe(tp.MSG_C, {n: n for n in ("TP_BMSG_F_SELF_SKIP", "TP_MSG_F_SELF_DIRECT", "TP_CBMSG_F_ONE_BY_ONE")}, "probe:bmsgflags")
+    if any(v is None for v in vals.values()):
+        raise driver.AnalysisBroken("broadcast flag constants not foldable")
+    S, D, O = vals["TP_BMSG_F_SELF_SKIP"], vals["TP_MSG_F_SELF_DIRECT"], vals["TP_CBMSG_F_ONE_BY_ONE"]
+    # site A: indirect calls through the msg_cb parameter in cbsend
+    a_sites = [(pos, c) for pos, root, c, ps in fa.nodes() if c.get("k") == "call" and "callee" in c and
+               core.strip_casts(c["callee"]).get("k") == "ref" and core.strip_casts(c["callee"])["n"] == fa.params[3]["n"]]
+    # site B: tpt_msg_send(..., tpt_msg_one_by_one_proxy_cb, ...) in the proxy itself
+    b_sites = [(pos, c) for pos, root, c, ps in fb.calls({"tpt_msg_send"}) if any(key(core.strip_casts(a)) == fb.name for a in c["args"])]
+    nxt = [c for pos, root, c, ps in fb.calls({"tpt_msg_one_by_one_send_next__int"})]
+    desc = "in one-by-one mode the caller's own callback is served exactly once (never with SELF_SKIP), by the direct call or by the end-of-chain send"
+    if not a_sites or len(b_sites) != 1 or len(nxt) != 1:
+        rep.violated("R-STATE", fb, "self-once", desc, "sites not found: %d direct, %d end-of-chain, %d chain calls" % (len(a_sites), len(b_sites), len(nxt)))
+        return 0
+    n = 0
+    bad = None
+    undec = None
+    for skip, direct in ((0, 0), (0, 1), (1, 0), (1, 1)):
+        fl = O | (S if skip else 0) | (D if direct else 0)
+        pe = r_stride.PE(u, call_default={"calloc": 0x900000})
+        binda = {"tp": 0x1000, "src": 0x2000, "flags": fl, "msg_cb": 0x3000, "udata": 0x4000, "done_cb": 0x5000,
+                 "tp_thread_count_max_get(tp)": 4}
+        ca = 0
+        for pos, c in a_sites:
+            r, path = pe.reach_stmt(fa, fa.entry, set(fa.reachable_blocks()), binda, pos[0], fa.blocks[pos[0]].elems[pos[1]])
+            if r == "unsure":
+                undec = "direct-call guard not evaluable"
+            ca += 1 if r == "sure" else 0
+        pe = r_stride.PE(u)
+        bindb = {"tpt": 0x2222, "udata": 0x6000, "msg_data": 0x6000, "msg_data->flags": fl, "msg_data->tpt": 0x1111, key(nxt[0]): 29}
+        pos, c = b_sites[0]
+        r, path = pe.reach_stmt(fb, fb.entry, set(fb.reachable_blocks()), bindb, pos[0], fb.blocks[pos[0]].elems[pos[1]])
+        if r == "unsure":
+            undec = "end-of-chain guard not evaluable"
+        cb = 1 if r == "sure" else 0
+        n += 1
+        want = 0 if skip else 1
+        if ca + cb != want:
+            bad = bad or "SELF_SKIP=%d SELF_DIRECT=%d: the caller's callback is served %d time(s) (direct call %d, end-of-chain send %d), expected %d" % (
+                skip, direct, ca + cb, ca, cb, want)
+    if bad:
+        rep.violated("R-STATE", fb, "self-once", desc, bad)
+    elif undec:
+        rep.undecided("R-STATE", fb, "self-once", desc, undec)
+    else:
+        rep.proved("R-STATE", fb, "self-once", desc, "4 flag combinations")
+    return n
+
+
 def run(rep, tier):
     us = tp.units((tp.MSG_C,))
     rep.use_units(us)
@@ -345,6 +401,7 @@ def run(rep, tier):
     n3 = ownership(rep, u)
     n4 = send_loop(rep, u)
     n5 = completion(rep, u)
+    rep.floor("self-serving flag combinations", self_once(rep, u), 4)
     rep.floor("countdown accesses", n1, 6)
     rep.floor("countdown release sites", n2, 1)
     rep.floor("cbsend paths from allocation", n3, 5)
